@@ -959,7 +959,7 @@ class C10(Prop):
                           "task-stop; histories: random over start stop join is_running set get pend enter exit with shaped "
                           "prefixes (context-manager form, start…stop join, stop first); every scenario ends with "
                           "remove_rpc_object; non-trivial = history of ≥ 2 operations; distinct by (script, history, schedule)")
-        n = ctx.scale(2600, 30000)
+        n = ctx.scale(2600, 20000)
         cases = [self._gen_case(ctx.rng, ctx.scale(7, 10)) for _ in range(n)]
         # a few fixed shapes every run: double start, stop first, join before start (expected to wait for ever)
         fixed = [
@@ -981,7 +981,7 @@ class C10(Prop):
         for cp in range(60, 300, ctx.scale(8, 2)):
             cases.append({"script": race, "history": rh, "seed": cp, "policy": "pct", "cp": cp, "trace": True})
         # (one change point rarely puts the post between `if fifo` and `fifo.pop()`; random thread weights do: ~4 % of runs)
-        for _ in range(ctx.scale(250, 2500)):
+        for _ in range(ctx.scale(250, 2000)):
             cases.append({"script": race, "history": rh, "seed": ctx.rng.randrange(1 << 30), "policy": "weighted",
                           "cp": None, "trace": True})
         self._evaluate(cases, res, ctx)
